@@ -249,6 +249,8 @@ class RpcClient:
             raise ValueError(f"Received BindNack with reason 0x{pdu_resp.reject_reason:08X}")
         elif isinstance(pdu_resp, Fault):
             raise ValueError(f"Receive Fault with status 0x{pdu_resp.status:08X}")
+        elif isinstance(pdu_resp, Response) and self._auth and encrypt_offsets and not pdu_header.auth_len:
+            raise ValueError("Received Response without the expected security trailer")
         elif not isinstance(pdu_resp, resp_type):
             raise ValueError(
                 f"Received unexpected PDU response of {type(pdu_resp).__name__} when expecting {resp_type.__name__}"
